@@ -146,6 +146,145 @@ theorem c21_allowed_shape (p : List Nat) (h : allowed p = true) :
   · exact ⟨seg, [], by simp [h1], hc, hns, Or.inl rfl, body_nil⟩
   · exact ⟨seg, 47 :: p', h1, hc, hns, Or.inr rfl, by rw [body_slash_cons]; exact h3⟩
 
+/-! ## Audit follow-up: trailing separators, backslashes, the extension prefix rule, the cache key -/
+
+/-- **Backslashes, drive letters, anything without `/`.** On Unix a string without a forward
+slash that is not ``, `.`, `..` is one `Normal` component equal to the whole string —
+`..\x.data`, `C:\x.data`, `dir\file.data` are plain file names (byte 92 is not a separator). -/
+theorem c21_no_slash_single_name (p : List Nat) (h47 : 47 ∉ p)
+    (h0 : p ≠ []) (h1 : p ≠ [46]) (h2 : p ≠ [46, 46]) : components p = [Comp.normal p] := by
+  have hb : body p = [Comp.normal p] := by
+    simp [body, splitSlash_no47 p h47, classify, h0, h1, h2]
+  cases p with
+  | nil => exact absurd rfl h0
+  | cons c r =>
+    have hc : c ≠ 47 := by intro e; apply h47; simp [e]
+    simp only [components, hc, if_false]
+    by_cases hd : c = 46
+    · subst hd
+      simp only [if_true]
+      cases r with
+      | nil => exact absurd rfl h1
+      | cons d r' =>
+        have hd' : d ≠ 47 := by intro e; apply h47; simp [e]
+        simp only [hd', if_false]; exact hb
+    · simp only [hd, if_false]; exact hb
+
+/-- **Trailing `/`, `/.`, `//./` are harmless.** If `p` is accepted then its file name `name`
+alone is accepted too, `p` and `name` are equal as `Path`s (same component list, hence the
+same loader cache key), and for every directory `d` the path handed to `File::open` has the
+same components as `d/name`: the resolved path is the direct child `name` of `d`. -/
+theorem c21_trailing_noise_harmless (p : List Nat) (h : allowed p = true) :
+    ∃ name tail, p = name ++ tail ∧ body tail = [] ∧ allowed name = true ∧
+      components p = components name ∧
+      ∀ d, components (push d p) = components (push d name) ∧
+        components (push d p) = components d ++ [Comp.normal name] := by
+  obtain ⟨name, h1, h2, h3, h4, hc, hext, hpush⟩ := c21_allowed_direct_child p h
+  obtain ⟨name', tail, hp, hc', _, _, htail⟩ := c21_allowed_shape p h
+  have hn : name' = name := by
+    rw [hc] at hc'; injection hc' with e _; injection e with e; exact e.symm
+  subst hn
+  have hcn : components name' = [Comp.normal name'] := c21_no_slash_single_name name' h4 h1 h2 h3
+  have han : allowed name' = true := (c21_allowed_iff name').mpr ⟨name', hcn, hext⟩
+  obtain ⟨n2, _, _, _, _, hc2, _, hpush2⟩ := c21_allowed_direct_child name' han
+  have hn2 : n2 = name' := by
+    rw [hcn] at hc2; injection hc2 with e _; injection e with e; exact e.symm
+  subst hn2
+  refine ⟨n2, tail, hp, htail, han, by rw [hc, hcn], ?_⟩
+  intro d
+  exact ⟨by rw [(hpush d).1, (hpush2 d).1], (hpush d).1⟩
+
+/-- **What "recognised data extension" means in the code**: a *prefix* rule.  The extension
+(text after the last `.`) is `data…` or `onnx_data…` with an arbitrary suffix — so
+`x.database`, `m.data_evil`, `w.onnx_data_7` are all recognised.  (T1 applies to all of
+them alike: they are direct children of the model directory.) -/
+theorem c21_ext_rule_exact (e : List Nat) :
+    extOk e = true ↔ ∃ s, e = strData ++ s ∨ e = strOnnxData ++ s := by
+  unfold extOk
+  rw [Bool.or_eq_true, startsWith_iff, startsWith_iff]
+  constructor
+  · rintro (⟨s, h⟩ | ⟨s, h⟩)
+    · exact ⟨s, Or.inl h⟩
+    · exact ⟨s, Or.inr h⟩
+  · rintro ⟨s, h | h⟩
+    · exact Or.inl ⟨s, h⟩
+    · exact Or.inr ⟨s, h⟩
+
+/-- Cache invariant: every entry was produced by opening an accepted location with that key. -/
+def CacheInv (openf : List Nat → Option (List Nat)) (c : Cache) : Prop :=
+  ∀ k f, cacheFind c k = some f → ∃ q, allowed q = true ∧ components q = k ∧ openf q = some f
+
+theorem cacheInv_nil (openf : List Nat → Option (List Nat)) : CacheInv openf [] := by
+  intro k f h; simp [cacheFind] at h
+
+/-- **The `PathBuf`-keyed cache cannot serve a different file.** Whatever `get_or_open_*`
+returns for `loc` — freshly opened or from the cache, where `m.data` and `m.data/.` share
+one entry — is the result of `File::open` on an accepted location `q` with the same
+component list as `loc`; by `c21_trailing_noise_harmless` both denote the same direct child
+of the model directory.  The invariant is preserved. -/
+theorem c21_cache_sound (openf : List Nat → Option (List Nat)) (cache cache' : Cache)
+    (loc file : List Nat) (hinv : CacheInv openf cache)
+    (h : getOrOpen cache openf loc = .ok (file, cache')) :
+    allowed loc = true ∧
+    (∃ q, allowed q = true ∧ components q = components loc ∧ openf q = some file ∧
+      ∀ d, components (push d q) = components (push d loc)) ∧
+    CacheInv openf cache' := by
+  unfold getOrOpen at h
+  split at h
+  · cases h
+  · rename_i ha
+    have hal : allowed loc = true := by
+      cases hh : allowed loc with
+      | true => rfl
+      | false => simp [hh] at ha
+    have same : ∀ q, allowed q = true → components q = components loc →
+        ∀ d, components (push d q) = components (push d loc) := by
+      intro q hq hqc d
+      obtain ⟨n1, _, _, _, _, c1, _, p1⟩ := c21_allowed_direct_child q hq
+      obtain ⟨n2, _, _, _, _, c2, _, p2⟩ := c21_allowed_direct_child loc hal
+      have : n1 = n2 := by
+        rw [c1, c2] at hqc; injection hqc with e _; injection e
+      subst this
+      rw [(p1 d).1, (p2 d).1]
+    refine ⟨hal, ?_⟩
+    split at h
+    · rename_i f hf
+      injection h with h; injection h with e1 e2; subst e1 e2
+      obtain ⟨q, hq, hqc, hqo⟩ := hinv _ _ hf
+      exact ⟨⟨q, hq, hqc, hqo, same q hq hqc⟩, hinv⟩
+    · split at h
+      · cases h
+      · rename_i hmiss f hf
+        injection h with h; injection h with e1 e2; subst e1 e2
+        refine ⟨⟨loc, hal, rfl, hf, fun d => rfl⟩, ?_⟩
+        intro k f' hk
+        simp only [cacheFind] at hk
+        split at hk
+        · rename_i hkk
+          injection hk with hk; subst hk
+          exact ⟨loc, hal, hkk, hf⟩
+        · exact hinv k f' hk
+
+-- the spellings named by the audit and the property's quantifier text
+example : allowed [109,46,100,97,116,97,47] = true := by decide                      -- "m.data/"
+example : allowed [109,46,100,97,116,97,47,46] = true := by decide                   -- "m.data/."
+example : allowed [109,46,100,97,116,97,47,47,46,47] = true := by decide             -- "m.data//./"
+example : components [109,46,100,97,116,97,47,47,46,47] = components [109,46,100,97,116,97] := by decide
+example : allowed [120,46,100,97,116,97,98,97,115,101] = true := by decide           -- "x.database"
+example : allowed [109,46,100,97,116,97,95,101,118,105,108] = true := by decide      -- "m.data_evil"
+example : allowed [46,46,92,120,46,100,97,116,97] = true ∧
+    components [46,46,92,120,46,100,97,116,97] = [Comp.normal [46,46,92,120,46,100,97,116,97]] := by decide  -- "..\x.data"
+example : allowed [67,58,92,120,46,100,97,116,97] = true ∧
+    components [67,58,92,120,46,100,97,116,97] = [Comp.normal [67,58,92,120,46,100,97,116,97]] := by decide  -- "C:\x.data"
+example : allowed [100,105,114,92,102,105,108,101,46,100,97,116,97] = true ∧
+    components (push [47,109] [100,105,114,92,102,105,108,101,46,100,97,116,97]) =
+      [Comp.root, Comp.normal [109], Comp.normal [100,105,114,92,102,105,108,101,46,100,97,116,97]] := by decide  -- "dir\file.data"
+example : getOrOpen [] (fun l => if l = [109,46,100,97,116,97] then some [1,2] else none) [109,46,100,97,116,97] =
+    .ok ([1,2], [([Comp.normal [109,46,100,97,116,97]], [1,2])]) := by decide
+-- "m.data/." is served from the entry created by "m.data" although the OS would refuse to open it
+example : getOrOpen [([Comp.normal [109,46,100,97,116,97]], [1,2])] (fun _ => none) [109,46,100,97,116,97,47,46] =
+    .ok ([1,2], [([Comp.normal [109,46,100,97,116,97]], [1,2])]) := by decide
+
 /-! ## T2 — everything else is rejected -/
 
 /-- **C21.T2a** absolute locations are rejected. -/
